@@ -252,6 +252,9 @@ class CallMixin:
   def ex_Call(self, e, st):
     if any(isinstance(a, ast.Starred) for a in e.args) or any(k.arg is None for k in e.keywords):
       return self.call_with_splat(e, st)
+    if isinstance(e.func, ast.Name) and e.func.id in ('tuple', 'list') and len(e.args) == 1 \
+        and not e.keywords and isinstance(e.args[0], ast.GeneratorExp):
+      return self.records_of_genexp(e.args[0], e.func.id, st, e)
     kwnames = [k.arg for k in e.keywords]
     parts = [e.func] + list(e.args) + [k.value for k in e.keywords]
     # `recv.m(...)` overridden by a contract whose first parameter is `self`: the contract
@@ -270,6 +273,77 @@ class CallMixin:
         return self.call_named_contract(cur.calls[src], [f] + pos, kw, st2, e)
       return self.do_call(f, pos, kw, st2, e)
     return self.then(self.ev_list(parts, st), k)
+
+  def records_of_genexp(self, ge, kind, st, node):
+    """tuple(R(x) for x in seq) / tuple(A(x) if isinstance(x, T) else B(x) for x in seq) where R, A,
+    B are one-field record classes: a fresh sequence of fresh, pairwise distinct records, the i-th
+    one holding the i-th element (summary with a quantified post; no user code runs)."""
+    from pyvc.state import cls_fn
+    from pyvc.expr import comp_ref
+    g = ge.generators[0] if len(ge.generators) == 1 else None
+    def rec_cls(x):
+      f = x.func if isinstance(x, ast.Call) else None
+      nm = f.attr if isinstance(f, ast.Attribute) else (f.id if isinstance(f, ast.Name) else None)
+      ok = (nm in DATACLASSES and len(DATACLASSES[nm]) == 1 and len(x.args) == 1 and not x.keywords
+            and isinstance(x.args[0], ast.Name) and g is not None and isinstance(g.target, ast.Name)
+            and x.args[0].id == g.target.id)
+      return nm if ok else None
+    if g is None or g.ifs or not isinstance(g.target, ast.Name):
+      self.unsupp('generator expression outside the summarised forms', node)
+    elt = ge.elt
+    if isinstance(elt, ast.IfExp):
+      t = elt.test
+      okt = (isinstance(t, ast.Call) and isinstance(t.func, ast.Name) and t.func.id == 'isinstance'
+             and len(t.args) == 2 and isinstance(t.args[0], ast.Name) and t.args[0].id == g.target.id
+             and isinstance(t.args[1], ast.Name) and t.args[1].id in ('str', 'int'))
+      ca, cb = rec_cls(elt.body), rec_cls(elt.orelse)
+      if not (okt and ca and cb):
+        self.unsupp('generator expression outside the summarised forms', node)
+      tname = t.args[1].id
+      choose = lambda x: (is_VStr(x) if tname == 'str' else z3.Or(is_VInt(x), is_VBool(x)))
+    else:
+      ca = cb = rec_cls(elt)
+      if not ca:
+        self.unsupp('generator expression outside the summarised forms', node)
+      choose = lambda x: z3.BoolVal(True)
+    fa, fb = DATACLASSES[ca][0], DATACLASSES[cb][0]
+    trusted(f'{kind}(<record>(x) for x in seq): one fresh {ca}/{cb} record per element, in order')
+    def k(st2, itv):
+      view = self.as_seqview(itv, st2, node)
+      extra = []
+      if getattr(view, 'is_keys', False):
+        extra.append(dkeys_axioms(view.has))
+      st3 = st2.assume(*extra)
+      h = st3.heap
+      site = z3.IntVal(node.lineno * 1000 + node.col_offset)
+      a0 = h.alloc
+      n = view.length
+      i, j = z3.Ints('ge_i ge_j')
+      rec = lambda x: comp_ref(site, a0, VInt(x))
+      st4, l = self.new_list_from(st3, z3.If(n > 0, n, 0), fresh('ge_arr', ValArr),
+                                  'tuple' if kind == 'tuple' else 'list')
+      h4 = st4.heap
+      arr = h4.eltarr(l)
+      na = fresh('ge_alloc', I)
+      r = z3.Int('ge_r')
+      newh = h4.set('alloc', na)
+      facts = [na >= h4.alloc,
+               SAFE_FORALL([i, j], z3.Implies(z3.And(0 <= i, i < j, j < n), rec(i) != rec(j)),
+                           patterns=[z3.MultiPattern(rec(i), rec(j))])]
+      fields = sorted({fa, fb})
+      newf = {}
+      for f in fields:
+        newf[f] = fresh('ge_f_' + f, ValArr)
+        oldf = h4.get('f:' + f)
+        facts.append(SAFE_FORALL([r], z3.Implies(r < h4.alloc, newf[f][r] == oldf[r]), patterns=[newf[f][r]]))
+        newh = newh.set('f:' + f, newf[f])
+      x_i = view.elt(i)
+      facts.append(SAFE_FORALL([i], z3.Implies(z3.And(0 <= i, i < n), z3.And(
+          arr[i] == VRef(rec(i)), rec(i) >= h4.alloc, rec(i) < na,
+          cls_fn(rec(i)) == z3.If(choose(x_i), z3.IntVal(CLASSES[ca]), z3.IntVal(CLASSES[cb])),
+          z3.If(choose(x_i), newf[fa][rec(i)] == x_i, newf[fb][rec(i)] == x_i))), patterns=[arr[i]]))
+      return [Res(st4.with_heap(newh).assume(*facts), VRef(l))]
+    return self.then(self.ev(g.iter, st), k)
 
   def call_with_splat(self, e, st):
     """f(*args, **kwargs) with a single list splat and a single dict splat: only for callees
@@ -1190,6 +1264,7 @@ class CMValue(Abstract):
 # classes whose construction is "allocate and set these fields" (dataclasses / trivial __init__)
 DATACLASSES = {
     'BuildableTraverserMetadata': ['fn_or_cls', 'argument_names', 'argument_tags', 'argument_history'],
+    'Attr': ['name'], 'Index': ['index'], 'Key': ['key'],      # frozen dataclasses of daglish
     '_Placeholder': ['index'],
     'HistoryEntry': ['sequence_id', 'param_name', 'kind', 'new_value', 'location'],
     'Location': ['filename', 'line_number', 'function_name'],
